@@ -1,5 +1,6 @@
 """C01 - XML save/load is lossless and conforms to odML format 1.1."""
 import io
+import copy
 import os
 
 from hypothesis import strategies as st
@@ -38,6 +39,9 @@ OPTIONS = ["plain", "plain", "local_style", "custom_template"]
 def cases(max_depth, text_classes=None):
     return st.fixed_dictionaries({
         "doc": S.doc_spec(max_depth=max_depth, text_classes=text_classes, dtype_members=True),
+        # stored (unresolved) links / includes are attributes like any other
+        "links": st.lists(st.tuples(st.integers(0, 20), st.integers(0, 20),
+                                    st.sampled_from(["link", "link", "include"])).map(list), max_size=2),
         "writer": st.sampled_from(WRITERS),
         "reader": st.sampled_from(READERS),
         "option": st.sampled_from(OPTIONS),
@@ -132,7 +136,7 @@ def compare(expected_img, loaded, clause):
 
 
 def body(case):
-    spec = case["doc"]
+    spec = S.add_links(copy.deepcopy(case["doc"]), case.get("links", []))
     doc = build.build_doc(spec)
     expected = snap.content(doc)
     d = env.fresh_dir("c01")
